@@ -1,79 +1,34 @@
-(** C02, layer 3 — STATEMENT ONLY (not proved, neither in full nor for the
-    non-peering part): every path the combinator model ([Combinator.combine], C28)
-    returns on segments produced by beaconing over a well-formed topology is the
-    rendering of a well-formed provenance path whose interface list is the path
-    metadata.  Together with [C02_forward_prov] it would give [C02_paths_forward].
+(** C02, layer 3: every path the combinator model ([Combinator.combine], C28) returns on segments
+    produced by beaconing over a well-formed topology is the rendering of a well-formed
+    provenance path whose interface list is the path metadata — PROVED HERE FOR PATHS WITHOUT
+    PEERING SLICES (core-only, up-core-down, full segments and shortcuts at a common AS), and
+    composed with [C02_forward_prov]: such a path is accepted hop by hop and delivered.
 
-    What replaces it: the correspondence check of C02 ships, for every path of the REAL
-    combinator over segments of the REAL extender, the provenance reconstructed from the
-    beaconed segments, and the model checks [render prov = the packet] and [wf_prov_b]
-    on it (notes/C02.md).  The definitions below say what "segments produced by
-    beaconing" means at the abstraction of Model/Segment.v. *)
-From Coq Require Import List NArith Bool Arith.
+    NOT PROVED: the same for paths over a peering link ([C02_combine_prov_statement] below is the
+    full statement, kept as a Definition).  Side conditions: source <> destination (for equal
+    ASes segfetcher.Pather.GetPaths answers with the empty path and never calls the combinator;
+    the combinator itself would return up-then-down loops) and at most 64 hop fields (the header's limit).
+    That the source AS is not the AS of a later hop field and the destination AS not of an
+    earlier one ([wf_prov_b] asks for it) is derived from the combinator's own loop filter
+    (no AS three times in the interface list, Proofs/ProvLoopFree.v).
+
+    Reading guide (Model/CombProv.v).  [beaconed mac t core s]: what iterating the extender
+    guarantees for a segment — [validate], [wf_fields], every entry's hop field is the MAC under
+    its AS key over beta_i (C22) and the uint32 timestamp, peer hop fields over beta_{i+1}, and the
+    egress of entry i is a child (core) link of the topology to entry i+1's ingress; a core
+    segment has at least two entries.  [pkt_of_path cp pp]: the packet a host builds from the
+    combinator's slices (CurrINF = CurrHF = 0).  [prov_of es]: one provenance slice per edge of
+    the combinator's solution = the entries of its segment from the cut index on. *)
+From Coq Require Import List NArith Bool Arith Lia.
 From Scion Require Import Lib.Check Model.Router Model.Network Model.Prov.
-From Scion Require Import Model.Segment Model.SegID Model.Combinator.
-From Scion Require Import Proofs.ProvFacts.
+From Scion Require Import Model.Segment Model.SegID Model.CombSpec Model.Combinator Model.CombProv.
+From Scion Require Import Proofs.CombinatorRender Proofs.CombinatorPaths.
+From Scion Require Import Proofs.ProvFacts Proofs.Forward Proofs.CombineProv Proofs.CombineProvMain.
 Import ListNotations.
+Import CombProv.
 Local Open Scope N_scope.
 
-Module CombineProv.
-Module R := Scion.Model.Router.Router.
-Module Nw := Scion.Model.Network.Network.
-Module Pv := Scion.Model.Prov.Prov.
-Module Sg := Scion.Model.Segment.Segment.
-Module Cb := Scion.Model.Combinator.Combinator.
-Module Sid := Scion.Model.SegID.SegID.
-
-Section Beaconed.
-Variable mac : N -> N -> N -> N -> N -> N -> list N.
-Variable t : Nw.topology.
-
-(** the MAC prefixes of the regular hop fields, and beta_i (C22) *)
-Definition sigmas (s : Sg.segment) : list N := map (fun a => Sg.mac16 (Sg.h_mac (Sg.ae_hop a))) (Sg.sg_entries s).
-Definition beta_at (s : Sg.segment) (i : nat) : N := Sid.beta (Sg.sg_segid s) (sigmas s) i.
-
-Definition hop_maced (ia_ : N) (b : N) (ts : N) (h : Sg.hopf) : Prop :=
-  exists a, Nw.find_as t ia_ = Some a /\
-    Sg.h_mac h = mac (Nw.a_key a) b ts (Sg.h_exp h) (Sg.h_in h) (Sg.h_eg h).
-
-Definition link_to (ia_ ifid : N) (lt : R.linktype) (nbr rem : N) : Prop :=
-  exists a f, Nw.find_as t ia_ = Some a /\ Nw.find_nif (Nw.a_ifs a) ifid = Some f /\
-    Nw.ni_lt f = lt /\ Nw.ni_nbr f = nbr /\ Nw.ni_remote f = rem.
-
-(** what the extender guarantees for entry [i] of a segment: its hop field is MACed with
-    beta_i, its peer hop fields with beta_{i+1} over the same egress and a peering link of
-    the AS; its egress leads to the next entry's AS over a child (core) link *)
-Definition entry_ok (core : bool) (s : Sg.segment) (i : nat) (e : Sg.as_entry) : Prop :=
-  hop_maced (Sg.ae_ia e) (beta_at s i) (Sg.sg_ts s) (Sg.ae_hop e) /\
-  Forall (fun pe =>
-    hop_maced (Sg.ae_ia e) (beta_at s (S i)) (Sg.sg_ts s) (Sg.pe_hop pe) /\
-    Sg.h_eg (Sg.pe_hop pe) = Sg.h_eg (Sg.ae_hop e) /\
-    link_to (Sg.ae_ia e) (Sg.h_in (Sg.pe_hop pe)) R.Peer (Sg.pe_ia pe) (Sg.pe_if pe)) (Sg.ae_peers e) /\
-  match nth_error (Sg.sg_entries s) (S i) with
-  | Some e' => link_to (Sg.ae_ia e) (Sg.h_eg (Sg.ae_hop e)) (if core then R.Core else R.Child)
-                       (Sg.ae_ia e') (Sg.h_in (Sg.ae_hop e'))
-  | None => True
-  end.
-
-Definition beaconed (core : bool) (s : Sg.segment) : Prop :=
-  Sg.validate s = true /\ Sg.wf_fields s = true /\
-  forall i e, nth_error (Sg.sg_entries s) i = Some e -> entry_ok core s i e.
-
-End Beaconed.
-
-(** the packet a host builds from a combinator path *)
-Definition pkt_of_path (cp : Cb.path) (pp : Pv.pparams) : R.pkt :=
-  let sls := Cb.p_slices cp in
-  let len j := N.of_nat (length (Cb.sl_hops (nth j sls (Cb.mkSlice (Cb.mkInfo 0 0 false false) [] [])))) in
-  R.mkPkt (Pv.pp_dst_ia pp) (Pv.pp_src_ia pp) (Pv.pp_dst_type pp) (Pv.pp_src_type pp)
-          (Pv.pp_dst_raw pp) (Pv.pp_src_raw pp) (Pv.pp_pay pp) (Pv.pp_pay pp) (Pv.pp_port pp)
-          0 0 (len 0%nat) (len 1%nat) (len 2%nat) 0
-          (map (fun sl => R.mkInfo (Cb.i_peer (Cb.sl_info sl)) (Cb.i_consdir (Cb.sl_info sl))
-                                   (Cb.i_segid (Cb.sl_info sl)) (Cb.i_ts (Cb.sl_info sl)) 0) sls)
-          (flat_map (fun sl => map (fun x => R.mkHop false false (Sg.h_exp (snd x)) (Sg.h_in (snd x))
-                                                     (Sg.h_eg (snd x)) (Sg.h_mac (snd x)) 0)
-                                   (Cb.sl_hops sl)) sls).
-
+(** the full statement (peering included): not proved *)
 Definition C02_combine_prov_statement : Prop :=
   forall mac t src dst ups cores downs fa ps cp pp,
     Nw.wf_topo t = true ->
@@ -81,9 +36,78 @@ Definition C02_combine_prov_statement : Prop :=
     Forall (beaconed mac t true) (Cb.segs_of cores) ->
     Forall (beaconed mac t false) (Cb.segs_of downs) ->
     Cb.combine src dst ups cores downs fa = Cb.Done ps -> In cp ps ->
+    src <> dst -> (length (path_ias cp) <= 64)%nat ->
     exists p : Pv.prov,
       Pv.wf_prov_b (macq_of mac) t p = true /\
       Pv.render p pp 0 false = pkt_of_path cp pp /\
       Pv.interfaces p = Cb.p_ifs cp.
 
-End CombineProv.
+Lemma no_peering_edges es : no_peering (path_of es) -> Forall nopeer es.
+Proof.
+  unfold no_peering. cbn [path_of Cb.p_slices]. rewrite !Forall_forall. intros H e He.
+  specialize (H (edge_slice e) (in_map _ _ _ He)).
+  cbn [edge_slice Cb.sl_info edge_info Cb.i_peer] in H. unfold nopeer.
+  destruct (Cb.e_peer e); [reflexivity|discriminate].
+Qed.
+
+(** the statement restricted to paths without peering slices *)
+Theorem C02_combine_prov_partial :
+  forall mac t src dst ups cores downs fa ps cp pp,
+    Nw.wf_topo t = true ->
+    Forall (beaconed mac t false) (Cb.segs_of ups) ->
+    Forall (beaconed mac t true) (Cb.segs_of cores) ->
+    Forall (beaconed mac t false) (Cb.segs_of downs) ->
+    Cb.combine src dst ups cores downs fa = Cb.Done ps -> In cp ps ->
+    src <> dst -> (length (path_ias cp) <= 64)%nat ->
+    no_peering cp ->
+    exists p : Pv.prov,
+      Pv.wf_prov_b (macq_of mac) t p = true /\
+      Pv.render p pp 0 false = pkt_of_path cp pp /\
+      Pv.interfaces p = Cb.p_ifs cp.
+Proof.
+  intros mac t src dst ups cores downs fa ps cp pp Hwt Bu Bc Bd Hc Hin Hsd H64 Hnp.
+  destruct (combine_in _ _ _ _ _ _ _ _ Hc Hin) as (es & Hch & -> & N3).
+  pose proof (no_peering_edges es Hnp) as Np.
+  exists (prov_of es). split; [|split].
+  - apply (chain_wf_prov mac t Hwt ups cores downs src dst es); assumption.
+  - apply (chain_render mac t Hwt ups cores downs src dst es); assumption.
+  - apply (chain_interfaces mac t Hwt ups cores downs src dst es); assumption.
+Qed.
+Print Assumptions C02_combine_prov_partial.
+
+(** C02 for the combinator's paths without peering slices: the packet built from the path is
+    forwarded by every router on the way, crosses exactly the interfaces of the path metadata, in
+    that order, and is delivered to the destination host in the destination AS. *)
+Theorem C02_paths_forward_partial :
+  forall mac t now src dst ups cores downs fa ps cp pp,
+    Nw.wf_topo t = true -> Nw.all_up t = true ->
+    Forall (beaconed mac t false) (Cb.segs_of ups) ->
+    Forall (beaconed mac t true) (Cb.segs_of cores) ->
+    Forall (beaconed mac t false) (Cb.segs_of downs) ->
+    Cb.combine src dst ups cores downs fa = Cb.Done ps -> In cp ps ->
+    src <> dst -> (length (path_ias cp) <= 64)%nat -> no_peering cp ->
+    path_unexpired now cp -> hosts_ok t src dst pp ->
+    exists tr rtr d a,
+      Pv.walk_from (macq_of mac) t now (pkt_of_path cp pp) (pkt_of_path cp pp) =
+        (tr, Nw.Delivered dst rtr (fst d) (snd d)) /\
+      Nw.crossed tr = Cb.p_ifs cp /\
+      Nw.find_as t dst = Some a /\ Pv.deliver_target a pp = Some d.
+Proof.
+  intros mac t now src dst ups cores downs fa ps cp pp Hwt Hup Bu Bc Bd Hc Hin Hsd H64 Hnp Hex Hh.
+  destruct (combine_in _ _ _ _ _ _ _ _ Hc Hin) as (es & Hch & -> & N3).
+  pose proof (no_peering_edges es Hnp) as Np.
+  assert (W : Pv.wf_prov_b (macq_of mac) t (prov_of es) = true)
+    by (apply (chain_wf_prov mac t Hwt ups cores downs src dst es); assumption).
+  assert (Rn : Pv.render (prov_of es) pp 0 false = pkt_of_path (path_of es) pp)
+    by (apply (chain_render mac t Hwt ups cores downs src dst es); assumption).
+  assert (If : Pv.interfaces (prov_of es) = Cb.p_ifs (path_of es))
+    by (apply (chain_interfaces mac t Hwt ups cores downs src dst es); assumption).
+  assert (Ep : Pv.endpoints_ok t (prov_of es) pp = true)
+    by (apply (endpoints_of mac t Hwt ups cores downs src dst es); assumption).
+  assert (Ux : Pv.all_unexpired now (prov_of es) = true)
+    by (apply (unexpired_of mac t Hwt ups cores downs src dst es); assumption).
+  destruct (forward_prov mac t now (prov_of es) pp Hwt Hup W Ep Ux) as (tr & rtr & d & a & Wk & Cr & Fa & Dt).
+  destruct Hh as (_ & Dd & _). rewrite Dd in Wk, Fa. rewrite Rn in Wk.
+  exists tr, rtr, d, a. rewrite <- If. auto.
+Qed.
+Print Assumptions C02_paths_forward_partial.
